@@ -1,7 +1,7 @@
 /-
   Ioc.SemPopulate — interpretation of the primitives called by the REGENERATED program of factory.go `populateComponent`
   and the function it computes (`populateModel`): ResolveAfterInstantiation first; then, property by property in the order
-  of GetComponentProperties, every candidate in the order of `Injects` through doGetComponent — stopping at the first
+  of GetComponentProperties (each node's `Injects` reset to nil beforehand), every candidate in the order of `Injects` through doGetComponent — stopping at the first
   error — and only then `Inject` with the components obtained, in that order.
   Tokens: property nodes `.ref i 20`, their dependency metas `.ref d 21`, obtained components `.ref d 0`.
 -/
@@ -11,6 +11,7 @@ namespace Ioc.Sem
 open Ioc Ioc.Go
 
 inductive PEv
+  | reset (node : Nat)            -- node.Injects = nil
   | resolve
   | get (d : Nat)
   | inject (node : Nat) (comps : List Nat)
@@ -19,7 +20,8 @@ deriving DecidableEq, Repr
 structure PC where
   n : Nat
   resolveOk : Bool
-  props : List (List Nat)         -- GetComponentProperties(): for the i-th property node, the names of node.Injects in order
+  props : List (List Nat)         -- GetComponentProperties(): for the i-th property node, the candidates THIS attempt's processors discover, in order
+  stale : Nat → List Nat := fun _ => []   -- what node.Injects still holds from an earlier (failed) attempt of the same creation
   getOk : Nat → Bool              -- doGetComponent(name) succeeds
   injectOk : Nat → Bool           -- node.Inject(…) succeeds
 
@@ -30,11 +32,17 @@ def depsOf (d : PC) (i : Nat) : List Nat := d.props.getD i []
 def decComps (vs : List Val) : Option (List Nat) :=
   vs.mapM (fun v => match v with | .ref m 0 => some m | _ => none)
 
+/-- node.Injects as the processors leave it: they APPEND what they discover to what is there — the leftovers of an earlier
+    attempt unless the node was reset in this one (the state is read off the history) -/
+def injectsNow (d : PC) (i : Nat) (t : List PEv) : List Nat :=
+  if t.contains (.reset i) then depsOf d i else d.stale i ++ depsOf d i
+
 def pcFn (d : PC) : String → List Val → List PEv → Option (Val × List PEv)
+  | ".set:Injects", [.ref i 20, .nil], t => some (.tuple [], t ++ [.reset i])
   | "self.postProcessorRegistrationDelegate.ResolveAfterInstantiation", [.ref _ 0, .int _], t =>
       some (if d.resolveOk then .nil else errP, t ++ [.resolve])
   | ".GetComponentProperties", [.ref _ 0], t => some (.list ((List.range' 0 d.props.length).map (fun i => .ref i 20)), t)
-  | ".Injects", [.ref i 20], t => some (.list ((depsOf d i).map (fun x => .ref x 21)), t)
+  | ".Injects", [.ref i 20], t => some (.list ((injectsNow d i t).map (fun x => .ref x 21)), t)
   | ".Name", [.ref x 21], t => some (.int x, t)
   | "self.doGetComponent", [.int x], t =>
       some (if d.getOk x.toNat then .tuple [.ref x.toNat 0, .nil] else .tuple [.nil, errP], t ++ [.get x.toNat])
@@ -69,10 +77,14 @@ def nodesLoop (d : PC) : Nat → List (List Nat) → List PEv × Bool
       let r2 := nodesLoop d (k + 1) rest
       (r.1 ++ r2.1, r2.2)
 
-/-- populateComponent: (calls made in order, succeeded) -/
+/-- every property node is reset first -/
+def resets (d : PC) : List PEv := (List.range' 0 d.props.length).map PEv.reset
+
+/-- populateComponent: (calls made in order, succeeded) — whatever an earlier attempt left in the nodes (`d.stale`) plays
+    no part: only the candidates discovered in this attempt are obtained and injected -/
 def populateModel (d : PC) : List PEv × Bool :=
-  if !d.resolveOk then ([.resolve], false) else
+  if !d.resolveOk then (resets d ++ [.resolve], false) else
   let r := nodesLoop d 0 d.props
-  (.resolve :: r.1, r.2)
+  (resets d ++ .resolve :: r.1, r.2)
 
 end Ioc.Sem
